@@ -29,12 +29,14 @@ type probeCtx struct {
 	next  int
 
 	// arm: cancel inside the first successful stop() at which stepsDone() == afterStep
-	afterStep int
-	stepsDone func() int
+	afterStep    int
+	stepsDone    func() int
+	stepsStarted func() int
 
 	firedAt  time.Time
-	regs     int // AfterFunc registrations seen
-	stopsWon int // successful stop() calls seen
+	firedBy  string // "stop" | "err" | "cancel"
+	regs     int    // AfterFunc registrations seen
+	stopsWon int    // successful stop() calls seen
 }
 
 func newProbeCtx(cause error) *probeCtx {
@@ -46,15 +48,27 @@ func (c *probeCtx) Done() <-chan struct{}       { return c.done }
 func (c *probeCtx) Value(any) any               { return nil }
 func (c *probeCtx) Err() error {
 	c.mu.Lock()
+	// second placement of a between-steps cancellation, independent of AfterFunc: the
+	// first time anybody asks for Err() while step afterStep is the last one started
+	// AND completed (that is the entry check of the next step, or any check the
+	// caller makes between the two), the context turns out to be cancelled
+	fire := c.err == nil && c.afterStep > 0 && c.stepsDone != nil && c.stepsStarted != nil &&
+		c.stepsDone() == c.afterStep && c.stepsStarted() == c.afterStep
+	c.mu.Unlock()
+	if fire {
+		c.cancelBy("err")
+	}
+	c.mu.Lock()
 	defer c.mu.Unlock()
 	return c.err
 }
 
 // ArmAfterStep makes the context cancel itself inside the stop() that follows
-// step j of the connection whose completed-step counter is stepsDone.
-func (c *probeCtx) ArmAfterStep(j int, stepsDone func() int) {
+// step j of the connection whose completed-step counter is stepsDone, or - should
+// that step have registered no AfterFunc - at the first Err() asked after it.
+func (c *probeCtx) ArmAfterStep(j int, stepsDone, stepsStarted func() int) {
 	c.mu.Lock()
-	c.afterStep, c.stepsDone = j, stepsDone
+	c.afterStep, c.stepsDone, c.stepsStarted = j, stepsDone, stepsStarted
 	c.mu.Unlock()
 }
 
@@ -82,32 +96,41 @@ func (c *probeCtx) AfterFunc(f func()) (stop func() bool) {
 		}
 		c.mu.Unlock()
 		if fire {
-			c.Cancel()
+			c.cancelBy("stop")
 		}
 		return ok
 	}
 }
 
 // Cancel cancels the context: Done is closed, Err reports the cause, and every
-// function still registered runs in its own goroutine (as the standard library
-// does).
-func (c *probeCtx) Cancel() {
+// function still registered is called.
+func (c *probeCtx) Cancel() { c.cancelBy("cancel") }
+
+func (c *probeCtx) cancelBy(who string) {
 	c.mu.Lock()
 	if c.err != nil {
 		c.mu.Unlock()
 		return
 	}
+	c.firedBy = who
 	c.err = c.cause
 	c.firedAt = time.Now()
 	close(c.done)
 	fs := c.funcs
 	c.funcs = map[int]func(){}
 	c.mu.Unlock()
+	// The registered functions are run here, synchronously, exactly as the standard
+	// library's cancelCtx.cancel calls its children: what package context registers
+	// through AfterFunc is its own short child.cancel, which starts the user's f in a
+	// new goroutine itself. (Running them asynchronously would be legal for a foreign
+	// context but leaves a window in which Err() != nil while cedar's stop() can still
+	// win - a race the replay could not reproduce.)
 	for _, f := range fs {
-		go f()
+		f()
 	}
 }
 
+func (c *probeCtx) FiredBy() string    { c.mu.Lock(); defer c.mu.Unlock(); return c.firedBy }
 func (c *probeCtx) FiredAt() time.Time { c.mu.Lock(); defer c.mu.Unlock(); return c.firedAt }
 func (c *probeCtx) Stats() (regs, stopsWon int) {
 	c.mu.Lock()
